@@ -99,6 +99,13 @@ def build_grid(case):
     return grid, title_row, lead
 
 
+class Candidates:
+    """expected value of a ranged attribute whose range holds a repeated title: {title: [(value, coordinate), ...]}"""
+
+    def __init__(self, kind, cand):
+        self.kind, self.cand = kind, cand
+
+
 def expected_objects(case):
     """-> list (one entry per data row): None | {attr: (value, origin)} where origin is a coordinate string,
     '<skipped column>', '<n/a>' or for ranged attrs a dict key -> coordinate"""
@@ -158,6 +165,14 @@ def expected_objects(case):
                 else:
                     d = a.get("default")
                     obj[a["name"]] = ([] if d == ["factory_list"] else d, "<skipped column>")
+            elif k in ("range_dict", "range_set") and len({titles[ci] for ci in rng}) < len(rng):
+                # a title occurs twice inside the range: which of the columns stands for it is not specified, but value
+                # and reported origin must belong to the same cell -> candidates per title
+                cand = {}
+                for ci in rng:
+                    v, co = cell(ci)
+                    cand.setdefault(titles[ci], []).append((conv(a["conv"] if k == "range_dict" else "bool", v), co))
+                obj[a["name"]] = (Candidates(k, cand), None)
             elif k == "range_dict":
                 vals, orig = {}, {}
                 for ci in rng:
@@ -280,6 +295,30 @@ def evaluate(case):
             except Exception as ex:   # noqa
                 f.append(("attribute_access_raises_" + type(ex).__name__, f"row {ri} {name}: {ex}"))
                 break
+            if isinstance(ev, Candidates):
+                classes.add("repeated_title_inside_range")
+                ok_type = isinstance(gv, dict if ev.kind == "range_dict" else set)
+                if not ok_type or (ev.kind == "range_dict" and set(gv) != set(ev.cand)) or \
+                        (ev.kind == "range_set" and not set(gv) <= set(ev.cand)):
+                    f.append(("wrong_value_range_with_repeated_title", f"row {ri} {name}: {gv!r}; candidates {ev.cand!r}"))
+                    break
+                for key, cl in ev.cand.items():
+                    try:
+                        gk = g.get_attr_origin(name, key)
+                    except Exception as ex:   # noqa
+                        f.append(("range_key_origin_raises_" + type(ex).__name__, f"row {ri} {name}[{key}]: {ex}"))
+                        break
+                    at = [v for v, co in cl if co == gk]
+                    if not at:
+                        f.append(("wrong_origin_range_key", f"row {ri} {name}[{key!r}]: {gk!r} is none of {[co for _, co in cl]!r}"))
+                        break
+                    have = gv[key] if ev.kind == "range_dict" else (key in gv)
+                    want = at[0] if ev.kind == "range_dict" else bool(at[0])
+                    if have != want:
+                        f.append(("value_is_not_the_conversion_of_the_cell_at_the_reported_origin",
+                                  f"row {ri} {name}[{key!r}]: value {have!r}, origin {gk!r} holds {want!r}; candidates {cl!r}"))
+                        break
+                continue
             if gv != ev or type(gv) is not type(ev):
                 tag = "ladder_" if case["ladder"] else ""
                 f.append((f"wrong_{tag}value_{a['kind']}", f"data row {ri} attr {name}: got {gv!r}, expected {ev!r} "
@@ -346,7 +385,7 @@ def st_val(kind, allow_blank=True, idcol=False):
         return (base | st.none()) if allow_blank else base
     if kind == "str":
         base = st.text("abc xyz-", min_size=1, max_size=6).filter(lambda s: s.strip() != "") | st.integers(0, 99) | \
-            st.just("0") | st.just(0)
+            st.just("0") | st.just(0) | st.sampled_from([1, 1.0, True, "1", 0.0, False, 7, 7.0, "True", 2.5])
         if idcol:
             return (base | st.none()) if allow_blank else base
         return (base | st.none() | st.sampled_from(["", " ", "  "])) if allow_blank else base
@@ -408,6 +447,10 @@ def st_case(draw):
             rattr["with_default"] = True
     uconv = "bool" if (rattr and rattr["kind"] == "range_set") else (rattr["conv"] if rattr else "str")
     unknown = [{"title": "U%d" % i, "conv": uconv, "attr": None} for i in range(n_unknown)]
+    if rattr is not None and n_unknown >= 2 and draw(st.integers(0, 3)) == 0:
+        i, j = draw(st.integers(0, n_unknown - 1)), draw(st.integers(0, n_unknown - 1))
+        if i != j:
+            unknown[j]["title"] = unknown[i]["title"]        # the same title twice inside the range
     pos = draw(st.integers(0, len(cols)))
     cols = cols[:pos] + unknown + cols[pos:]
     # blank-titled columns (not inside the unknown run when a range exists)
